@@ -22,6 +22,7 @@ theories/Model/State.v
 theories/Model/Rt.v
 theories/Model/Mem.v
 theories/Model/Trace.v
+theories/Model/TraceRender.v
 theories/Model/Exec.v
 theories/Model/Sys.v
 theories/Model/StackInit.v
@@ -78,6 +79,8 @@ def regen():
     problems = [l for l in out.splitlines() if l.startswith("ax2coq: ") and "definitions," not in l]
     if rc != 0 and not problems:
         problems = ["ax2coq: crashed: " + out[-500:]]
+    if os.path.exists(os.path.join(tmp, "Frame.v")):
+        gen_quiet(tmp)
     os.makedirs(GEN, exist_ok=True)
     changed = []
     for f in sorted(os.listdir(tmp)):
@@ -90,6 +93,52 @@ def regen():
             os.remove(os.path.join(GEN, f))
             changed.append("-" + f)
     return dict(ok=(rc == 0 and not problems), problems=problems, changed=changed)
+
+
+LOUD_SEEDS = {"trace_call", "trace_return", "trace_jump", "add_trace", "call_stack_push", "call_stack_pop"}
+WRITE_SEEDS = LOUD_SEEDS | {"regs_insert", "xmm_insert", "put_rflags", "put_fs", "put_gs", "put_finished",
+                            "mem_write_bytes", "mem_write_8", "mem_write_16", "mem_write_32", "mem_write_64",
+                            "mem_write_128", "internal_mem_write_128"}
+DERIVED = (("Quiet", "quiet", LOUD_SEEDS, "trace and call stack untouched"),
+           ("Readonly", "readonly", WRITE_SEEDS, "machine state returned unchanged"))
+
+
+def gen_quiet(d):
+    """gen/Quiet.v, gen/Readonly.v: one lemma for every generated function that does not
+    (transitively) mention one of the seed primitives.  Which lemmas are stated is decided here
+    from the generated text; whether they hold is decided by Coq."""
+    bodies = {}
+    for f in sorted(os.listdir(d)):
+        if not f.endswith(".v") or f in ("Frame.v",) or f[:-2] in [x[0] for x in DERIVED]:
+            continue
+        txt = open(os.path.join(d, f)).read()
+        for m in re.finditer(r"^(?:Definition|Fixpoint) (\w+)(.*?)(?=^(?:Definition|Fixpoint) |\Z)", txt, re.S | re.M):
+            bodies[m.group(1)] = set(re.findall(r"[A-Za-z_][A-Za-z_0-9']*", m.group(2)))
+    fr = open(os.path.join(d, "Frame.v")).read()
+    res = {}
+    for modname, pred, seeds, what in DERIVED:
+        loud = set()
+        changed = True
+        while changed:
+            changed = False
+            for k, ids in bodies.items():
+                if k not in loud and (ids & seeds or ids & loud):
+                    loud.add(k)
+                    changed = True
+        head = fr.split("\n\n", 1)[0].replace("frame lemmas", "%s lemmas (%s)" % (pred, what)).replace("FrameTac", modname + "Tac")
+        out = [head, ""]
+        names = []
+        for m in re.finditer(r"^Lemma frame_(\w+) : forall c([ a0-9]*), framed \((.*)\)\.$", fr, re.M):
+            n = m.group(1)
+            if n in loud:
+                continue
+            names.append(n)
+            out.append("Lemma %s_%s : forall c%s, %s (%s).\nProof. intros; unfold %s; %s_tac. Qed.\n#[export] Hint Resolve %s_%s : %sdb.\n"
+                       % (pred, n, m.group(2), pred, m.group(3), n, pred, pred, n, pred))
+        out.append("(* excluded (no lemma): %s *)" % " ".join(sorted(loud)))
+        open(os.path.join(d, modname + ".v"), "w").write("\n".join(out) + "\n")
+        res[modname] = (names, sorted(loud))
+    return res
 
 
 def gen_pinned_diff():
@@ -124,6 +173,9 @@ def write_coqproject():
     lines += order
     if os.path.exists(os.path.join(GEN, "Frame.v")):
         lines.append("gen/Frame.v")
+    for extra in ("Quiet", "Readonly"):
+        if os.path.exists(os.path.join(GEN, extra + ".v")):
+            lines.append("gen/%s.v" % extra)
     txt = "\n".join(lines) + "\n"
     p = os.path.join(COQ, "_CoqProject")
     if not os.path.exists(p) or open(p).read() != txt or not os.path.exists(os.path.join(COQ, "Makefile")):
